@@ -51,6 +51,10 @@ func tableMaxN(L *LState) int {
 func tableRemove(L *LState) int {
 	tbl := L.CheckTable(1)
 	if L.Get(2) == LNil { // no position, or an explicit nil: the last element
+		if tbl.Len() == 0 {
+			// tremove: the position #t is outside 1..#t, an empty list returns nothing
+			return 0
+		}
 		L.Push(tbl.Remove(-1))
 	} else {
 		pos := L.CheckInt(2)
